@@ -39,6 +39,9 @@ LEDGER = os.path.join(CONTRACTS, "ledger.json")
 KNOWN = os.path.join(VERIF, "known_findings.txt")
 SCRATCH_ROOT = os.environ.get("VERIF_SCRATCH", "/var/tmp/nfverif")
 
+# generous resource limit: proofs use a few percent of it; a proof that needs more is split, not given more
+DEFAULT_RLIMIT = 150
+
 OFFLINE_ENV = {"CARGO_NET_OFFLINE": "true"}
 
 LOGICAL = re.compile(
@@ -146,7 +149,7 @@ def canary_text(text, fn_names):
 
 
 def run_verus_file(path, timeout=300, rlimit=None):
-    cmd = ["verus", path, "--output-json", "--time", "--num-threads", "4"]
+    cmd = ["verus", path, "--output-json", "--time", "--num-threads", "1"]
     if rlimit:
         cmd += ["--rlimit", str(rlimit)]
     rc, so, se, dt = sh(cmd, timeout=timeout)
@@ -239,7 +242,7 @@ def run_verus_unit(unit, repo, want_canary=True):
     open(path, "w").write(text)
     res["extraction"] = meta
     res["generated_file"] = path
-    info = run_verus_file(path, rlimit=unit.get("rlimit"))
+    info = run_verus_file(path, rlimit=unit.get("rlimit", DEFAULT_RLIMIT))
     status, funcs, fails, smt_ms, nver = classify_verus(info)
     # A refactoring may introduce a named constant next to the function; its value is definitional, so
     # it is pulled in verbatim from the same source file and the unit is re-run (helper *functions* are not:
@@ -269,7 +272,7 @@ def run_verus_unit(unit, repo, want_canary=True):
         auto.append(name)
         text = text.replace("\nfn main() {}", "\nverus! { pub %s }\nfn main() {}" % ctext.replace("pub ", "", 1), 1)
         open(path, "w").write(text)
-        info = run_verus_file(path, rlimit=unit.get("rlimit"))
+        info = run_verus_file(path, rlimit=unit.get("rlimit", DEFAULT_RLIMIT))
         status, funcs, fails, smt_ms, nver = classify_verus(info)
     if auto:
         res["auto_included_consts"] = auto
